@@ -25,14 +25,28 @@
         no check-in of any number of flights is refused as grounded, and the daily update credits nobody.
     The update clause of the discipline is discharged for the shapes the bot's trip histories take
     ([C20_bot_trip_shapes_follow_the_update_discipline], from the C06 characterisation of Update).
-    NOT proved: that the planner of pkg/model produces exactly such histories (start days, trip lengths
-    against TripLength, one outbound and one return flight), and anything about the 1000-line
-    simulation driver (configuration handling, planning threads, reporting, files).  Both are
-    exercised on every run: protocol histories on the real flap.Engine compared call by call with the
-    model, and the real Build/Run in child processes over generated worlds and configurations. *)
+    (d) THE SIMULATION'S BOT ([C20_simulated_bot_follows_the_discipline], [C20_simulated_bot_is_never_refused]):
+        the day loop of one traveller-bot as pkg/model runs it (Model/Bot.v: the daily update, then
+        promisesPlanner - the days prepareWeights offers, the two planned flights of whenWillWeFly,
+        Propose and Make -, then journeyPlanner.submitFlights - one check-in per planned journey at the
+        flight's start, the return planned for trip-length days later when the outbound is accepted)
+        produces, for ANY number of days, any dice, any chosen days among those offered, any departure
+        seconds, any predictor with in-range answers, any balances/shares/parameters, a history that
+        follows the discipline - so every check-in of the simulation is accepted.  Hypotheses on the
+        configuration: trip lengths with FlightInterval <= length - 1 and length + 1 <= TripLength, more
+        than two flights per trip, promises on, and route distances that are positive numbers
+        ([route_ok]; true of every positive finite float64 pair).  The days offered are characterised
+        exactly ([C20_planner_offers_exactly_the_free_days]).
+    NOT proved: that Engine.modelDay performs these steps in this order for every bot (read off the
+    code and mirrored by the harness, which drives the REAL promisesPlanner and journeyPlanner
+    functions through hooks and compares every step with Model/Bot.v and the engine model), planning
+    threads, and anything about the rest of the 1000-line simulation driver (configuration handling,
+    reporting, files).  Exercised on every run: protocol histories on the real flap.Engine, the real
+    planner code on a real engine, and the real Build/Run in child processes over generated worlds. *)
 From Coq Require Import ZArith List Bool.
 From Coq Require Import Lia.
-From Flap Require Import Model.Num Model.NumF Model.NumZ Model.TripHistory Model.Promises Model.Predictor Model.Engine
+From Coq Require Import Sorting.Sorted.
+From Flap Require Import Model.Num Model.NumF Model.NumZ Model.TripHistory Model.Promises Model.Predictor Model.Engine Model.Bot Proofs.BotPlanP Proofs.BotDayP
   Proofs.PromisesP Proofs.PromisesFrameP Proofs.ClearedP Proofs.EngineInv Proofs.UpdateAllP Proofs.ProtocolP Proofs.TrialP
   Proofs.TableP Proofs.ItineraryP Proofs.HistoryP Proofs.HistoryEngineP Proofs.BotShapeP.
 Import ListNotations.
@@ -240,3 +254,92 @@ Proof.
   split; [vm_compute; reflexivity|]. split; [vm_compute; reflexivity|]. split; [vm_compute; reflexivity|].
   split; [vm_compute; reflexivity|]. apply Inv_empty. discriminate.
 Qed.
+
+(** ---- the simulation's traveller-bot ---- *)
+(** prepareWeights offers exactly the days of the planning period on which a trip of that length touches
+    no promised trip, each once, in increasing order *)
+Theorem C20_planner_offers_exactly_the_free_days : forall (N : NumOps) (b : book N) (today len total : Z),
+  StronglySorted (@ts_le N) (promises_oldest_first b) ->
+  (forall p, In p (promises_oldest_first b) -> day_of (p_ts p) <= today + total) ->
+  (forall d, In d (prepare_days b today len total) <->
+     today <= d <= today + (total - len) /\
+     forall p, In p (promises_oldest_first b) -> ~ clashes len p d) /\
+  StronglySorted Z.lt (prepare_days b today len total).
+Proof. exact @prepare_days_spec. Qed.
+Print Assumptions C20_planner_offers_exactly_the_free_days.
+
+(** one day of the bot keeps the invariant and follows the discipline *)
+Theorem C20_simulated_bot_day : forall (N : NumOps) mx, 1 <= mx ->
+  forall (dist : Z -> Z -> K N) (tp : thparams), rules_ok tp ->
+  forall d clk (b : bot N) (di : day_input N),
+  BI mx dist tp d clk b -> BotDayP.day_ok dist tp di ->
+  let '(b', evs) := bot_day mx dist d b di in
+  conforming mx clk (b_trav b) evs /\ b_trav b' = fold_left (apply_ev mx) evs (b_trav b) /\
+  BI mx dist tp (d + 1) (last_time clk evs) b'.
+Proof. exact @bot_day_conforms. Qed.
+Print Assumptions C20_simulated_bot_day.
+
+(** any number of days *)
+Theorem C20_simulated_bot_follows_the_discipline : forall (N : NumOps) mx, 1 <= mx ->
+  forall (dist : Z -> Z -> K N) (tp : thparams), rules_ok tp ->
+  forall (dis : list (day_input N)) d clk (b : bot N),
+  BI mx dist tp d clk b -> Forall (BotDayP.day_ok dist tp) dis ->
+  conforming mx clk (b_trav b) (bot_run mx dist d b dis).
+Proof. exact @bot_run_conforming. Qed.
+Print Assumptions C20_simulated_bot_follows_the_discipline.
+
+Theorem C20_simulated_bot_is_never_refused : forall (N : NumOps) mx, 1 <= mx ->
+  forall (dist : Z -> Z -> K N) (tp : thparams), rules_ok tp ->
+  forall (dis : list (day_input N)) d clk (b : bot N),
+  BI mx dist tp d clk b -> Forall (BotDayP.day_ok dist tp) dis ->
+  all_accepted mx (b_trav b) (bot_run mx dist d b dis).
+Proof. exact @bot_run_all_accepted. Qed.
+Print Assumptions C20_simulated_bot_is_never_refused.
+
+(** a bot with no record yet and nothing planned satisfies the invariant *)
+Theorem C20_new_bot_satisfies_the_invariant : forall (N : NumOps) mx, 1 <= mx ->
+  forall (dist : Z -> Z -> K N) (tp : thparams) d now, 1 <= d ->
+  BI mx dist tp d 0 (mkBot (new_traveller now) []).
+Proof. intros N mx Hmx dist tp d now Hd. exact (@BI_new N mx Hmx dist tp d now Hd). Qed.
+Print Assumptions C20_new_bot_satisfies_the_invariant.
+
+(** non-vacuity: eight days of a bot in exact arithmetic - it plans a three-day trip on the first day,
+    flies out two days later and back three days after that; the configuration satisfies every
+    hypothesis, both check-ins are in the history and (by the theorem) accepted, and the update after
+    the return has recorded the promise as kept *)
+Definition exb_dist : Z -> Z -> Z := fun _ _ => 1000.
+Definition exb_day (plan : option (plan_choice NumZ)) : day_input NumZ :=
+  @mkDay NumZ ex_params 100 (@empty_pc NumZ) true ex_pred plan 7200 3600.
+Definition exb_days : list (day_input NumZ) :=
+  exb_day (Some (@mkChoice NumZ 3 18002 1 2 2000 3600 3600)) :: repeat (exb_day None) 7.
+Definition exb_history : list (@ev NumZ) := bot_run (N:=NumZ) 3 exb_dist 18000 (mkBot (new_traveller (ex_day 18000)) []) exb_days.
+
+Example ex_pred_ok : pred_ok ex_pred.
+Proof.
+  intros d s c. cbn [ex_pred pr_predict]. destruct ((1 <=? s) && (s <? 1000000)) eqn:E; [|discriminate].
+  intros H. injection H as <-. apply andb_prop in E. destruct E as [E1 E2]. apply Z.leb_le in E1. apply Z.ltb_lt in E2.
+  unfold PromisesFrameP.day_ok, two64, SecondsInDay. change (2 ^ 64) with 18446744073709551616. lia.
+Qed.
+
+Example C20_simulated_bot_hypotheses_hold_somewhere :
+  rules_ok (th_params ex_params) /\ Forall (BotDayP.day_ok (N:=NumZ) exb_dist (th_params ex_params)) exb_days /\
+  length (filter (fun e => match e with ECheckin _ _ _ _ _ => true | _ => false end) exb_history) = 2%nat /\
+  p_ts (t_kept (fold_left (apply_ev (N:=NumZ) 3) exb_history (new_traveller (ex_day 18000)))) = ex_day 18002 /\
+  all_accepted 3 (@new_traveller NumZ (ex_day 18000)) exb_history.
+Proof.
+  assert (Hr : rules_ok (th_params ex_params)) by (unfold rules_ok; cbn; lia).
+  assert (Hn : BotDayP.day_ok (N:=NumZ) exb_dist (th_params ex_params) (exb_day None)).
+  { split; [reflexivity|]. split; [exact ex_pred_ok|]. split; [vm_compute; reflexivity|exact I]. }
+  assert (Hd : Forall (BotDayP.day_ok (N:=NumZ) exb_dist (th_params ex_params)) exb_days).
+  { unfold exb_days. cbn [repeat]. constructor; [|repeat (constructor; [exact Hn|]); constructor].
+    split; [reflexivity|]. split; [exact ex_pred_ok|]. split; [vm_compute; reflexivity|].
+    cbn [exb_day di_plan]. unfold choice_ok. cbn [c_r c_dur c_len c_from c_to c_dist c_day].
+    split; [vm_compute; reflexivity|]. split; [lia|]. split; [cbn; lia|]. split; [cbn; lia|].
+    split; [unfold route_ok; vm_compute; repeat split; reflexivity|]. split; [vm_compute; reflexivity|].
+    unfold tmax, SecondsInDay. change (2 ^ 62) with 4611686018427387904. lia. }
+  split; [exact Hr|]. split; [exact Hd|]. split; [vm_compute; reflexivity|]. split; [vm_compute; reflexivity|].
+  exact (C20_simulated_bot_is_never_refused NumZ 3 ltac:(lia) exb_dist (th_params ex_params) Hr exb_days 18000 0
+           (mkBot (new_traveller (ex_day 18000)) [])
+           (C20_new_bot_satisfies_the_invariant NumZ 3 ltac:(lia) exb_dist (th_params ex_params) 18000 (ex_day 18000) ltac:(lia)) Hd).
+Qed.
+
